@@ -102,13 +102,15 @@ Proof. unfold idx2. destruct (tens_idx u) as [|x [|y [|z l]]]; split; intros H; 
 Lemma pair_rem_some tg ix a0 a1 b0 b1 pos p q r :
   pair_rem tg ix (a0, a1) (b0, b1) = Some (pos, p, q, r) ->
   (if pos then a0 = q /\ a1 = p /\ b0 = r /\ b1 = p else a0 = p /\ a1 = q /\ b0 = p /\ b1 = r)
-  /\ ~ In p tg /\ icount p ix = 2%nat.
+  /\ ~ In p tg /\ icount p ix = 2%nat /\ skip_pair tg ix q r = false.
 Proof. unfold pair_rem.
   destruct (index_eqb a0 b0 && negb (imem a0 tg) && Nat.eqb (icount a0 ix) 2) eqn:E1.
-  - intros H; inversion H; subst. rewrite !andb_true_iff, negb_true_iff in E1.
+  - destruct (skip_pair tg ix a1 b1) eqn:Sk; [discriminate|].
+    intros H; inversion H; subst. rewrite !andb_true_iff, negb_true_iff in E1.
     destruct E1 as [[E1 E2] E3]. apply index_eqb_eq in E1. apply imem_nIn in E2. apply Nat.eqb_eq in E3.
     subst; auto.
   - destruct (index_eqb a1 b1 && negb (imem a1 tg) && Nat.eqb (icount a1 ix) 2) eqn:E2; [|discriminate].
+    destruct (skip_pair tg ix a0 b0) eqn:Sk; [discriminate|].
     intros H; inversion H; subst. rewrite !andb_true_iff, negb_true_iff in E2.
     destruct E2 as [[E2 E3] E4]. apply index_eqb_eq in E2. apply imem_nIn in E3. apply Nat.eqb_eq in E4.
     subst; auto. Qed.
@@ -117,7 +119,8 @@ Lemma pair_step_sound name tg c fs x y rest w rest' :
   Permutation fs (x :: y :: rest) ->
   pair_step name tg (mono_idx fs) (x, y, rest) = Some (w, rest') ->
   rest' = rest /\
-  let '(_, p, q, r) := w in unitary_step name tg (Term c fs) p q r (build c q r rest).
+  let '(_, p, q, r) := w in unitary_step name tg (Term c fs) p q r (build c q r rest)
+                            /\ skip_pair tg (mono_idx fs) q r = false.
 Proof. intros HP. unfold pair_step, try_pair.
   destruct (named name x) as [u1|] eqn:N1; [|discriminate].
   destruct (named name y) as [u2|] eqn:N2; [|discriminate].
@@ -126,13 +129,15 @@ Proof. intros HP. unfold pair_step, try_pair.
   destruct (pair_rem tg (mono_idx fs) (a0, a1) (b0, b1)) as [[[[pos p] q] r]|] eqn:PR; [|discriminate].
   intros H; injection H as Hw Hr. subst w rest'. split; [reflexivity|]. cbv beta iota.
   apply named_some in N1, N2. destruct N1 as [-> N1], N2 as [-> N2].
-  apply idx2_some in I1, I2. apply pair_rem_some in PR. destruct PR as [Hpos [Hp Hc]].
+  apply idx2_some in I1, I2. apply pair_rem_some in PR. destruct PR as [Hpos [Hp [Hc Hsk]]].
+  split; [|exact Hsk].
   apply (UStep name tg c fs u1 u2 rest pos p q r); auto.
   destruct pos; destruct Hpos as [-> [-> [-> ->]]]; auto. Qed.
 
-(* a successful pass is a step of the relation *)
-Theorem unitary_pass_sound name tg t pos p q r t' :
-  unitary_pass_tg name tg t = RStep (pos, p, q, r) t' -> unitary_step name tg t p q r t'.
+(* a successful pass is a step of the relation that is not of the skipped kind *)
+Lemma unitary_pass_sound_skip name tg t pos p q r t' :
+  unitary_pass_tg name tg t = RStep (pos, p, q, r) t' ->
+  unitary_step name tg t p q r t' /\ skip_pair tg (term_idx t) q r = false.
 Proof. unfold unitary_pass_tg. destruct (existsb (bad_u name) (tfacs t)); [discriminate|].
   destruct (find_first (pair_step name tg (term_idx t)) (all_pairs (tfacs t)))
     as [[[[[pos' p'] q'] r'] rest1]|] eqn:F; [|discriminate].
@@ -140,6 +145,9 @@ Proof. unfold unitary_pass_tg. destruct (existsb (bad_u name) (tfacs t)); [discr
   pose proof (all_pairs_perm _ _ _ _ Hin) as HP. destruct t as [c fs]; simpl in *.
   destruct (pair_step_sound name tg c fs x y rest0 _ _ HP Hst) as [E Hs].
   inversion H; subst. exact Hs. Qed.
+Theorem unitary_pass_sound name tg t pos p q r t' :
+  unitary_pass_tg name tg t = RStep (pos, p, q, r) t' -> unitary_step name tg t p q r t'.
+Proof. intros H. apply unitary_pass_sound_skip in H. tauto. Qed.
 
 Theorem succs_sound name tg t pos p q r t' :
   In ((pos, p, q, r), t') (succs name tg t) -> unitary_step name tg t p q r t'.
@@ -147,37 +155,75 @@ Proof. unfold succs. rewrite in_flat_map. intros [[[x y] rest] [Hin H]].
   destruct (pair_step name tg (term_idx t) (x, y, rest)) as [[w rest']|] eqn:E; [|destruct H].
   destruct w as [[[pos' p'] q'] r']. destruct H as [H|[]]. inversion H; subst.
   pose proof (all_pairs_perm _ _ _ _ Hin) as HP. destruct t as [c fs]; simpl in *.
-  destruct (pair_step_sound name tg c fs x y rest _ _ HP E) as [-> Hs]. exact Hs. Qed.
+  destruct (pair_step_sound name tg c fs x y rest _ _ HP E) as [-> Hs]. tauto. Qed.
 
-(* the enumeration is complete: if the pass finds nothing, no step exists *)
+(* ---------- every step the executable pass takes satisfies the side condition ----------
+   (the guard added to the code: a pair whose remaining indices coincide in a
+   contracted index that occurs nowhere else is skipped) *)
+Lemma build_one c q rest : build c q q rest = Term c rest.
+Proof. unfold build, mk_delta. rewrite index_eqb_refl. reflexivity. Qed.
+Lemma step_side_of_noskip name tg t p q r t' :
+  unitary_step name tg t p q r t' -> skip_pair tg (term_idx t) q r = false ->
+  q <> r \/ In q tg \/ In q (term_idx t').
+Proof. intros Hstep Hsk.
+  destruct Hstep as [c fs u1 u2 rest pos p q r HP N1 N2 Hidx Hptg Hcnt].
+  destruct (index_eq_dec q r) as [<-|Hne]; [|left; exact Hne].
+  destruct (in_dec index_eq_dec q tg) as [Hq|Hq]; [right; left; exact Hq|].
+  right; right. rewrite build_one. unfold term_idx in *; cbn [tfacs] in *.
+  unfold skip_pair in Hsk. rewrite index_eqb_refl in Hsk. apply imem_nIn in Hq. rewrite Hq in Hsk.
+  simpl in Hsk. apply Nat.eqb_neq in Hsk.
+  rewrite (icount_perm q _ _ (mono_idx_perm _ _ HP)) in Hsk.
+  rewrite (icount_perm p _ _ (mono_idx_perm _ _ HP)) in Hcnt.
+  rewrite !mono_idx_cons, !fac_idx_tens, !icount_app in Hsk, Hcnt.
+  apply icount_pos.
+  destruct pos; destruct Hidx as [I1 I2]; rewrite I1, I2 in Hsk, Hcnt; simpl in Hsk, Hcnt;
+    rewrite !index_eqb_refl in Hsk, Hcnt;
+    destruct (index_eqb q p) eqn:E1; destruct (index_eqb p q) eqn:E2; simpl in Hsk, Hcnt; try lia;
+    try (apply index_eqb_eq in E1; subst; rewrite index_eqb_refl in E2; discriminate);
+    try (apply index_eqb_eq in E2; subst; rewrite index_eqb_refl in E1; discriminate). Qed.
+Theorem unitary_pass_safe name tg t pos p q r t' :
+  unitary_pass_tg name tg t = RStep (pos, p, q, r) t' ->
+  q <> r \/ In q tg \/ In q (term_idx t').
+Proof. intros H. apply unitary_pass_sound_skip in H. destruct H as [H1 H2].
+  eapply step_side_of_noskip; eauto. Qed.
+
+(* the enumeration is complete: if the pass finds nothing, the only steps of
+   the relation are of the skipped kind *)
 Lemma try_pair_step name tg ix u1 u2 (pos : bool) p q r :
   tname u1 = name -> tname u2 = name ->
   (if pos then tens_idx u1 = [q; p] /\ tens_idx u2 = [r; p]
    else tens_idx u1 = [p; q] /\ tens_idx u2 = [p; r]) ->
-  ~ In p tg -> icount p ix = 2%nat ->
+  ~ In p tg -> icount p ix = 2%nat -> skip_pair tg ix q r = false ->
   try_pair name tg ix (ATens u1, false) (ATens u2, false) <> None.
-Proof. intros N1 N2 Hidx Hp Hc. unfold try_pair. rewrite (named_tens _ _ N1), (named_tens _ _ N2).
+Proof. intros N1 N2 Hidx Hp Hc Hsk. unfold try_pair. rewrite (named_tens _ _ N1), (named_tens _ _ N2).
   apply imem_nIn in Hp. apply Nat.eqb_eq in Hc.
   destruct pos; destruct Hidx as [I1 I2]; apply idx2_some in I1, I2; rewrite I1, I2; unfold pair_rem.
-  - destruct (index_eqb q r && negb (imem q tg) && Nat.eqb (icount q ix) 2); [discriminate|].
-    rewrite index_eqb_refl, Hp, Hc. discriminate.
-  - rewrite index_eqb_refl, Hp, Hc. discriminate. Qed.
+  - fold (skip_pair tg ix q r). rewrite Hsk. rewrite index_eqb_refl, Hp, Hc. simpl. discriminate.
+  - rewrite index_eqb_refl, Hp, Hc. simpl. rewrite Hsk. discriminate. Qed.
+Lemma skip_pair_sym tg ix q r : skip_pair tg ix r q = skip_pair tg ix q r.
+Proof. unfold skip_pair. destruct (index_eq_dec q r) as [->|H]; [reflexivity|].
+  assert (E : index_eqb q r = false) by (apply index_eqb_neq; exact H).
+  rewrite (index_eqb_sym r q), E. reflexivity. Qed.
 
 Theorem unitary_pass_complete name tg t :
-  unitary_pass_tg name tg t = RNone -> forall p q r t', ~ unitary_step name tg t p q r t'.
+  unitary_pass_tg name tg t = RNone ->
+  forall p q r t', unitary_step name tg t p q r t' -> skip_pair tg (term_idx t) q r = true.
 Proof. unfold unitary_pass_tg. destruct (existsb (bad_u name) (tfacs t)); [discriminate|].
   destruct (find_first (pair_step name tg (term_idx t)) (all_pairs (tfacs t)))
     as [[[[[pos' p'] q'] r'] rest1]|] eqn:F; [discriminate|].
   intros _ p q r t' Hstep.
+  destruct (skip_pair tg (term_idx t) q r) eqn:Hsk; [reflexivity|exfalso].
   destruct Hstep as [c fs u1 u2 rest pos p q r HP N1 N2 Hidx Hptg Hcnt].
+  unfold term_idx in Hsk; cbn [tfacs] in Hsk.
   destruct (perm_pair_found _ _ _ _ HP) as [rest' [Hin|Hin]];
     pose proof (find_first_none _ _ F _ Hin) as Hn; unfold pair_step in Hn; simpl in Hn.
-  - pose proof (try_pair_step name tg (mono_idx fs) u1 u2 pos p q r N1 N2 Hidx Hptg Hcnt) as Hne.
+  - pose proof (try_pair_step name tg (mono_idx fs) u1 u2 pos p q r N1 N2 Hidx Hptg Hcnt Hsk) as Hne.
     unfold term_idx in Hn; simpl in Hn.
     destruct (try_pair name tg (mono_idx fs) (ATens u1, false) (ATens u2, false)); [discriminate|tauto].
   - assert (Hidx' : if pos then tens_idx u2 = [r; p] /\ tens_idx u1 = [q; p]
                     else tens_idx u2 = [p; r] /\ tens_idx u1 = [p; q]) by (destruct pos; tauto).
-    pose proof (try_pair_step name tg (mono_idx fs) u2 u1 pos p r q N2 N1 Hidx' Hptg Hcnt) as Hne.
+    rewrite <- skip_pair_sym in Hsk.
+    pose proof (try_pair_step name tg (mono_idx fs) u2 u1 pos p r q N2 N1 Hidx' Hptg Hcnt Hsk) as Hne.
     unfold term_idx in Hn; simpl in Hn.
     destruct (try_pair name tg (mono_idx fs) (ATens u2, false) (ATens u1, false)); [discriminate|tauto].
 Qed.
@@ -193,16 +239,27 @@ Corollary pass_untouched name tg t pos p q r t' :
 Proof. intros H. apply unitary_pass_sound in H.
   destruct H as [c fs u1 u2 rest pos' p q r HP N1 N2 Hidx Hptg Hcnt]. auto. Qed.
 
-(* the result of the recursion admits no further step *)
-Lemma unitary_iter_terminal fuel name prov t t' :
-  unitary_iter fuel name prov t = Some t' -> unitary_pass name prov t' = RNone.
-Proof. revert t. induction fuel as [|f IH]; intros t; simpl; [discriminate|].
-  destruct (unitary_pass name prov t) eqn:E; [discriminate| |apply IH].
-  intros H; inversion H; subst. exact E. Qed.
-Theorem terminal_spec fuel name prov t t' :
-  unitary_iter fuel name prov t = Some t' ->
-  forall p q r t'', ~ unitary_step name (targets_of prov t') t' p q r t''.
-Proof. intros H. apply unitary_iter_terminal in H. apply unitary_pass_complete. exact H. Qed.
+(* every term the recursion returns admits no further step (but skipped ones) *)
+Lemma iter_all_In (g : term -> option (list term)) ts out x :
+  iter_all g ts = Some out -> In x out -> exists t o, In t ts /\ g t = Some o /\ In x o.
+Proof. revert out. induction ts as [|t r IH]; simpl; intros out H Hx.
+  - inversion H; subst. destruct Hx.
+  - destruct (g t) as [a|] eqn:E1; [|discriminate]. destruct (iter_all g r) as [b|] eqn:E2; [|discriminate].
+    inversion H; subst. apply in_app_or in Hx. destruct Hx as [Hx|Hx].
+    + exists t, a. auto.
+    + destruct (IH b eq_refl Hx) as [t0 [o [H1 [H2 H3]]]]. exists t0, o. auto. Qed.
+Lemma unitary_iter_terminal fuel name prov t out t' :
+  unitary_iter fuel name prov t = Some out -> In t' out -> unitary_pass name prov t' = RNone.
+Proof. revert t out. induction fuel as [|f IH]; intros t out; simpl; [discriminate|].
+  destruct (unitary_pass name prov t) eqn:E; [discriminate| |].
+  - intros H Hx; inversion H; subst. destruct Hx as [<-|[]]. exact E.
+  - intros H Hx. destruct (iter_all_In _ _ _ _ H Hx) as [tt0 [o [H1 [H2 H3]]]]. eapply IH; eauto. Qed.
+Theorem terminal_spec fuel name prov t out t' :
+  unitary_iter fuel name prov t = Some out -> In t' out ->
+  forall p q r t'', unitary_step name (targets_of prov t') t' p q r t'' ->
+                    skip_pair (targets_of prov t') (term_idx t') q r = true.
+Proof. intros H Hx. pose proof (unitary_iter_terminal _ _ _ _ _ _ H Hx) as Hn.
+  apply unitary_pass_complete. exact Hn. Qed.
 
 Section Sums.
 Variable S : Scalar.
@@ -730,4 +787,211 @@ Proof. intros Hstep Sq Sr Horth Hrng Hqr Hnd.
   rewrite (unitary_step_sound name _ t p q r t' r0 Hstep Sq Sr Horth Hrng (or_introl Hqr)).
   apply eval_term_tg_set. intros x. symmetry.
   apply (einstein_targets_step name _ t p q r t' Hstep Hqr Hz Hnd). Qed.
+(* ================= the repaired code: whole-recursion theorems ================= *)
+Lemma sum_over_ksum {A} (l : list A) xs r0 (f : A -> env -> K S) :
+  sum_over S T xs r0 (fun e => ksum l (fun k => f k e)) = ksum l (fun k => sum_over S T xs r0 (f k)).
+Proof. induction l as [|a l IH]; simpl; [apply sum_over_zero|].
+  rewrite sum_over_add, IH. reflexivity. Qed.
+Lemma ksum_flat_map {A B} (g : A -> list B) l (f : B -> K S) :
+  ksum (flat_map g l) f = ksum l (fun x => ksum (g x) f).
+Proof. induction l as [|a l IH]; simpl; [reflexivity|]. rewrite ksum_app, IH. reflexivity. Qed.
+Lemma flat_map_perm {A B} (g : A -> list B) l l' : Permutation l l' -> Permutation (flat_map g l) (flat_map g l').
+Proof. induction 1; simpl.
+  - constructor.
+  - apply Permutation_app_head; assumption.
+  - rewrite !app_assoc. apply Permutation_app_tail. apply Permutation_app_comm.
+  - etransitivity; eauto. Qed.
+
+Lemma mono_idx_tens ts : mono_idx (map (fun u : tens => (ATens u, false)) ts) = flat_map tens_idx ts.
+Proof. induction ts as [|u ts IH]; [reflexivity|]. cbn [map flat_map].
+  rewrite mono_idx_cons, IH. reflexivity. Qed.
+Lemma mono_val_tens e ts :
+  mono_val S T e (map (fun u : tens => (ATens u, false)) ts) = kprod (map (tens_val S T e) ts).
+Proof. unfold mono_val. rewrite map_map. reflexivity. Qed.
+
+Lemma summand_val e c qt : term_val S T e (summand c qt) = ofQ S c * pterm_val S T e qt.
+Proof. unfold term_val, summand; cbn [tcoef tfacs]. rewrite mono_val_tens, ofQ_mul.
+  unfold pterm_val. ring. Qed.
+Lemma poly_term_val e c p : term_val S T e (Term c [(APoly p, false)]) = ofQ S c * poly_val S T e p.
+Proof. unfold term_val, mono_val; cbn [tcoef tfacs map kprod]. unfold fac_val; cbn [fst snd atom_val]. ring. Qed.
+
+(* multiplying out a homogeneous sum: every summand carries all non-target
+   indices of the sum *)
+Lemma split_sum_sound tg r0 t :
+  (forall p, tfacs t = [(APoly p, false)] -> homog tg p = true) ->
+  eval_term S T tg r0 t = ksum (split_sum t) (eval_term S T tg r0).
+Proof. intros Hh. unfold split_sum.
+  assert (Triv : eval_term S T tg r0 t = ksum [t] (eval_term S T tg r0)) by (simpl; ring).
+  destruct t as [c fs]. cbn [tfacs tcoef] in *.
+  destruct fs as [|[[u|a b|n|s|p] [|]] [|f2 l]]; try exact Triv.
+  destruct (Nat.leb 2 (List.length p)); [|exact Triv]. clear Triv.
+  specialize (Hh p eq_refl). unfold homog in Hh. rewrite forallb_forall in Hh.
+  set (t := Term c [(APoly p, false)]). set (xs := contracted tg t).
+  rewrite ksum_map.
+  rewrite (ksum_ext S p _ (fun qt => sum_over S T xs r0 (fun e => term_val S T e (summand c qt)))).
+  - rewrite <- (sum_over_ksum p xs r0 (fun qt e => term_val S T e (summand c qt))).
+    unfold eval_term. fold xs. apply sum_over_ext. intros e.
+    unfold t. rewrite poly_term_val. unfold poly_val. rewrite <- ksum_scal.
+    apply ksum_ext. intros qt _. rewrite summand_val. reflexivity.
+  - intros qt Hqt. unfold eval_term.
+    apply (sum_over_perm S T (term_idx (summand c qt)) _ _ _ r0
+             (fun e1 e2 He => term_val_agree S T (summand c qt) e1 e2 He) (contracted_NoDup tg _)).
+    apply NoDup_Permutation; [apply contracted_NoDup|apply contracted_NoDup|].
+    intros x. unfold xs. rewrite !contracted_In.
+    assert (Et : term_idx t = poly_idx p ++ []) by reflexivity.
+    assert (Es : term_idx (summand c qt) = flat_map tens_idx (snd qt))
+      by (unfold term_idx, summand; cbn [tfacs]; apply mono_idx_tens).
+    rewrite Et, Es, app_nil_r.
+    split; intros [H1 H2]; split; auto.
+    + unfold poly_idx. apply in_flat_map. exists qt. auto.
+    + specialize (Hh qt Hqt). rewrite forallb_forall in Hh. specialize (Hh x H1).
+      apply orb_true_iff in Hh. destruct Hh as [Hh|Hh]; apply imem_In in Hh; tauto. Qed.
+
+(* ---------- the premise [wfb] is kept by steps and by multiplying out ---------- *)
+Lemma fac_ok_delta name sp sn tg a b inv : fac_ok name sp sn tg (ADelta a b, inv) = true.
+Proof. unfold fac_ok; simpl. destruct inv; reflexivity. Qed.
+Lemma wfb_perm name sp sn tg c fs c' fs' :
+  (forall f, In f fs' -> In f fs \/ exists a b inv, f = (ADelta a b, inv)) ->
+  wfb name sp sn tg (Term c fs) = true -> wfb name sp sn tg (Term c' fs') = true.
+Proof. unfold wfb; cbn [tfacs]. rewrite !forallb_forall. intros Hin H f Hf.
+  destruct (Hin f Hf) as [H1|[a [b [inv ->]]]]; [apply H; exact H1|apply fac_ok_delta]. Qed.
+Lemma wfb_step name sp sn tg0 name' tg t p q r t' :
+  unitary_step name' tg t p q r t' -> wfb name sp sn tg0 t = true -> wfb name sp sn tg0 t' = true.
+Proof. intros Hstep. destruct Hstep as [c fs u1 u2 rest pos p q r HP N1 N2 Hidx Hptg Hcnt].
+  assert (Hrest : forall f, In f rest -> In f fs).
+  { intros f Hf. apply (Permutation_in _ (Permutation_sym HP)). right; right; exact Hf. }
+  unfold build. destruct (mk_delta q r) as [| |d] eqn:E.
+  - apply wfb_perm. intros f Hf; left; auto.
+  - intros _. reflexivity.
+  - assert (Hd : exists a b inv, d = (ADelta a b, inv)).
+    { unfold mk_delta in E. destruct (index_eqb q r); [discriminate|].
+      destruct (delta_zero q r); [discriminate|]. inversion E.
+      destruct (idx_leb q r); eauto. }
+    destruct (existsb (is_delta_fac q r) rest); apply wfb_perm; intros f Hf.
+    + left; auto.
+    + destruct Hf as [<-|Hf]; [right; exact Hd|left; auto]. Qed.
+Lemma wfb_split name sp sn tg t s : wfb name sp sn tg t = true -> In s (split_sum t) ->
+  wfb name sp sn tg s = true.
+Proof. unfold split_sum. intros Hw.
+  assert (Triv : In s [t] -> wfb name sp sn tg s = true) by (intros [<-|[]]; exact Hw).
+  destruct t as [c fs]. cbn [tfacs tcoef] in *.
+  destruct fs as [|[[u|a b|n|s0|p] [|]] [|f2 l]]; try exact Triv.
+  destruct (Nat.leb 2 (List.length p)); [|exact Triv]. clear Triv.
+  intros Hs. apply in_map_iff in Hs. destruct Hs as [qt [<- Hqt]].
+  unfold wfb in *; cbn [tfacs forallb] in *. rewrite andb_true_r in Hw.
+  unfold fac_ok in Hw. apply andb_true_iff in Hw. destruct Hw as [Hw _].
+  cbn [fac_tens fst] in Hw. rewrite forallb_forall in Hw.
+  unfold summand; cbn [tfacs]. apply forallb_forall. intros f Hf.
+  apply in_map_iff in Hf. destruct Hf as [u [<- Hu]]. unfold fac_ok; cbn [fac_tens fst forallb].
+  rewrite !andb_true_r. apply Hw. apply in_flat_map. exists qt. auto. Qed.
+Lemma wfb_homog name sp sn tg t p : wfb name sp sn tg t = true -> tfacs t = [(APoly p, false)] ->
+  homog tg p = true.
+Proof. unfold wfb. intros H E. rewrite E in H. cbn [forallb] in H. rewrite andb_true_r in H.
+  unfold fac_ok in H. apply andb_true_iff in H. tauto. Qed.
+Lemma wfb_sorts name sp sn tg0 tg t p q r t' :
+  unitary_step name tg t p q r t' -> wfb name sp sn tg0 t = true ->
+  sort_is sp sn p = true /\ sort_is sp sn q = true /\ sort_is sp sn r = true.
+Proof. intros Hstep Hw. destruct Hstep as [c fs u1 u2 rest pos p q r HP N1 N2 Hidx Hptg Hcnt].
+  unfold wfb in Hw; cbn [tfacs] in Hw. rewrite forallb_forall in Hw.
+  assert (H1 : In (ATens u1, false) fs) by (apply (Permutation_in _ (Permutation_sym HP)); left; reflexivity).
+  assert (H2 : In (ATens u2, false) fs) by (apply (Permutation_in _ (Permutation_sym HP)); right; left; reflexivity).
+  apply Hw in H1, H2. unfold fac_ok in H1, H2; cbn [fac_tens fst forallb] in H1, H2.
+  rewrite !andb_true_r in H1, H2. unfold tens_ok in H1, H2. rewrite N1 in H1. rewrite N2 in H2.
+  rewrite String.eqb_refl in H1, H2. cbn [negb orb] in H1, H2.
+  destruct pos; destruct Hidx as [I1 I2]; rewrite I1 in H1; rewrite I2 in H2;
+    cbn [forallb] in H1, H2; rewrite !andb_true_iff in H1, H2; tauto. Qed.
+
+(* one successful executable pass on a well-formed term preserves the value -
+   no side condition about the pair is needed any more *)
+Lemma unitary_pass_value name sp sn tg t w t' r0 :
+  unitary_pass_tg name tg t = RStep w t' ->
+  wfb name sp sn tg t = true ->
+  orthogonal name (rng T sp sn) ->
+  (forall x, In x tg -> In (r0 x) (irange S T x)) ->
+  eval_term S T tg r0 t = eval_term S T tg r0 t' /\ wfb name sp sn tg t' = true.
+Proof. destruct w as [[[pos p] q] r]. intros Hp Hw Horth Hrng.
+  pose proof (unitary_pass_safe _ _ _ _ _ _ _ _ Hp) as Hside.
+  apply unitary_pass_sound in Hp.
+  destruct (wfb_sorts _ _ _ _ _ _ _ _ _ _ Hp Hw) as [Sp [Sq Sr]].
+  split; [|eapply wfb_step; eauto].
+  apply (unitary_step_sound name tg t p q r t' r0 Hp); auto.
+  - apply (sort_is_same sp sn); assumption.
+  - apply (sort_is_same sp sn); assumption.
+  - rewrite (sort_is_irange sp sn p Sp). exact Horth. Qed.
+
+Lemma iter_all_sum (g : term -> option (list term)) (f : term -> K S) ts out :
+  (forall t o, In t ts -> g t = Some o -> f t = ksum o f) ->
+  iter_all g ts = Some out -> ksum ts f = ksum out f.
+Proof. revert out. induction ts as [|t r IH]; simpl; intros out H E.
+  - inversion E; reflexivity.
+  - destruct (g t) as [a|] eqn:E1; [|discriminate]. destruct (iter_all g r) as [b|] eqn:E2; [|discriminate].
+    inversion E; subst. rewrite ksum_app, (H t a), (IH b); auto. Qed.
+
+(* ---------- the whole executable recursion preserves the value ----------
+   for provided targets tg: the value of the input term is the sum of the
+   values of the returned terms, for every orthogonal model and every target
+   assignment within ranges; the only premise is the well-formedness of the input *)
+Theorem unitary_iter_sound name sp sn tg fuel t out r0 :
+  unitary_iter fuel name (Some tg) t = Some out ->
+  wfb name sp sn tg t = true ->
+  orthogonal name (rng T sp sn) ->
+  (forall x, In x tg -> In (r0 x) (irange S T x)) ->
+  eval_term S T tg r0 t = ksum out (eval_term S T tg r0).
+Proof. intros H Hw Horth Hrng. revert t out H Hw.
+  induction fuel as [|f IH]; intros t out H Hw; simpl in H; [discriminate|].
+  unfold unitary_pass in H; cbn [targets_of] in H.
+  destruct (unitary_pass_tg name tg t) as [| |w t'] eqn:E; [discriminate| |].
+  - inversion H; subst. simpl. ring.
+  - destruct (unitary_pass_value name sp sn tg t w t' r0 E Hw Horth Hrng) as [Hv Hw'].
+    rewrite Hv. rewrite (split_sum_sound tg r0 t' (fun p0 => wfb_homog name sp sn tg t' p0 Hw')).
+    apply (iter_all_sum (unitary_iter f name (Some tg))); [|exact H].
+    intros s o Hs Ho. apply IH; [exact Ho|]. eapply wfb_split; eauto. Qed.
+
+(* ---------- the observed call tree ---------- *)
+Lemma pick_spec t ks k r : pick t ks = Some (k, r) ->
+  Permutation ks (k :: r) /\ term_ceqb t (oroot k) = true.
+Proof. revert k r. induction ks as [|k0 ks IH]; simpl; intros k r; [discriminate|].
+  destruct (term_ceqb t (oroot k0)) eqn:E.
+  - intros H; inversion H; subst. auto.
+  - destruct (pick t ks) as [[k' r']|]; [|discriminate]. intros H; inversion H; subst.
+    destruct (IH _ _ eq_refl) as [H1 H2]. split; [|exact H2].
+    rewrite perm_swap. constructor. exact H1. Qed.
+Lemma align_spec ts ks ks' : align ts ks = Some ks' ->
+  Permutation ks ks' /\ Forall2 (fun t k => term_ceqb t (oroot k) = true) ts ks'.
+Proof. revert ks ks'. induction ts as [|t ts IH]; simpl; intros ks ks'.
+  - destruct ks; [|discriminate]. intros H; inversion H; subst. split; constructor.
+  - destruct (pick t ks) as [[k r]|] eqn:E; [|discriminate].
+    destruct (align ts r) as [l|] eqn:E2; [|discriminate]. intros H; inversion H; subst.
+    destruct (pick_spec _ _ _ _ E) as [P1 C1]. destruct (IH _ _ E2) as [P2 F2].
+    split; [rewrite P1; constructor; exact P2|constructor; assumption]. Qed.
+
+(* every call tree accepted by [check_tree] preserves the value: the input
+   term's value is the sum of the values of the returned terms *)
+Theorem check_tree_sound name sp sn prov fuel n r0 :
+  check_tree fuel name sp sn prov n = true ->
+  orthogonal name (rng T sp sn) ->
+  (forall x, In x (targets_of prov (oroot n)) -> In (r0 x) (irange S T x)) ->
+  eval_term S T (targets_of prov (oroot n)) r0 (oroot n)
+  = ksum (leaves fuel n) (eval_term S T (targets_of prov (oroot n)) r0).
+Proof. intros H Horth. revert n H. induction fuel as [|f IH]; intros n H Hrng; [discriminate|].
+  destruct n as [t tgo ks]. cbn [check_tree leaves oroot okids] in *.
+  destruct ks as [|k0 ks0]; [simpl; ring|].
+  set (ks := k0 :: ks0) in *. set (tg := targets_of prov t) in *.
+  apply andb_true_iff in H. destruct H as [Hw H].
+  unfold unitary_pass in H. fold tg in H.
+  destruct (unitary_pass_tg name tg t) as [| |w t'] eqn:E; try discriminate.
+  destruct (align (split_sum t') ks) as [ks'|] eqn:EA; [|discriminate].
+  destruct (unitary_pass_value name sp sn tg t w t' r0 E Hw Horth Hrng) as [Hv Hw'].
+  destruct (align_spec _ _ _ EA) as [HP HF].
+  rewrite Hv, (split_sum_sound tg r0 t' (fun p0 => wfb_homog name sp sn tg t' p0 Hw')).
+  rewrite (ksum_perm S _ _ _ (flat_map_perm (leaves f) _ _ HP)), ksum_flat_map.
+  rewrite forallb_forall in H. clear EA HP.
+  induction HF as [|s k ss kk Hc HF' IHF]; [reflexivity|].
+  cbn [ksum]. rewrite IHF by (intros x Hx; apply H; right; exact Hx). f_equal.
+  specialize (H k (or_introl eq_refl)). apply andb_true_iff in H. destruct H as [Hset Hck].
+  pose proof (set_eqb_In _ _ Hset) as Hs.
+  rewrite (term_ceqb_sound tg r0 s (oroot k) Hc).
+  rewrite (eval_term_tg_set tg (targets_of prov (oroot k)) r0 (oroot k) (fun x => iff_sym (Hs x))).
+  rewrite (IH k Hck) by (intros x Hx; apply Hrng; apply Hs; exact Hx).
+  apply ksum_ext. intros x _. apply eval_term_tg_set. exact Hs. Qed.
 End Sums.
